@@ -50,6 +50,8 @@ def symbolic_sets(repo, ev):
 
 def _run(repo, rep):
     alg.reset()
+    from .. import symcheck as _sc
+    _sc.set_ranges({'x': (1.0e6, 5.0e7), 'y': (1.0e6, 5.0e7), 'z': (1.0e6, 5.0e7)})
     common.state_rule(repo, rep, [('geodepy.transform', 'conform7')])
     rep.trust('sv/alg.py exact normal forms and exact differentiation')
     rep.trust('frozen summary: hp2dec(q/10000) == q/3600 degrees for |q| < 60 arc-seconds (string-based HP conversion, the property\'s domain)')
